@@ -20,6 +20,12 @@ import (
 )
 
 func reuseCases(prop, tier string) int {
+	if prop == "C16" {
+		if tier == "thorough" {
+			return 600
+		}
+		return 60
+	}
 	if prop != "C05" && prop != "C01" {
 		return 0
 	}
@@ -30,6 +36,9 @@ func reuseCases(prop, tier string) int {
 }
 
 func runReuseCase(prop, tier string, seed int64, k, idx int) proto.Rec {
+	if prop == "C16" {
+		return runReuseSizeCase(prop, tier, seed, k, idx)
+	}
 	rng := rand.New(rand.NewSource(proto.SubSeed(seed, idx, "reuse"+prop)))
 	rec := proto.Rec{ID: fmt.Sprintf("%s/%s/%d/%d:reuse", prop, tier, seed, idx), Obs: map[string]int64{}}
 	idem := prop == "C05" || rng.Intn(2) == 0
@@ -271,4 +280,205 @@ func batchIDs(b sarama.VBatch) []int {
 		}
 	}
 	return ids
+}
+
+// runReuseSizeCase (C16): message objects that have been through the producer once come back to the
+// application, are refilled with a payload of a different size and sent again. The limits hold for
+// what the object carries now: an oversize second payload is rejected, second payloads that together
+// exceed MaxMessageBytes do not share a partition batch, and a small second payload on an object whose
+// first payload was rejected as too large is delivered.
+func runReuseSizeCase(prop, tier string, seed int64, k, idx int) proto.Rec {
+	rng := rand.New(rand.NewSource(proto.SubSeed(seed, idx, "reusesize"+prop)))
+	rec := proto.Rec{ID: fmt.Sprintf("%s/%s/%d/%d:reuse", prop, tier, seed, idx), Obs: map[string]int64{}}
+	limit := []int{300, 1000, 5000}[rng.Intn(3)]
+	version := []sarama.KafkaVersion{sarama.V0_8_2_0, sarama.V0_10_0_0, sarama.V0_11_0_0, sarama.V2_1_0_0}[rng.Intn(4)]
+	overhead := 26
+	if version.IsAtLeast(sarama.V0_11_0_0) {
+		overhead = 36
+	}
+	nobj := 3 + rng.Intn(6)
+	rounds := 2 + rng.Intn(2)
+	flushFreq := time.Duration([]int{0, 3, 8}[rng.Intn(3)]) * time.Millisecond
+	delayMs := rng.Intn(4)
+
+	sim := sarama.VNewSim(simSocketDir(), 1)
+	defer sim.Close()
+	sim.CreateTopic("t", 1, 100)
+	sim.OnProduce = func(ctx *sarama.VSimProduceCtx) sarama.VSimProduceAction {
+		if delayMs > 0 {
+			time.Sleep(time.Duration(delayMs) * time.Millisecond) // later submissions pile up and are batched
+		}
+		return sarama.VSimProduceAction{}
+	}
+	conf := sarama.NewConfig()
+	conf.ClientID = "vreusesize"
+	conf.Version = version
+	sim.ConfigureNet(conf)
+	conf.Producer.Return.Successes = true
+	conf.Producer.Return.Errors = true
+	conf.Producer.Retry.Max = 2
+	conf.Producer.MaxMessageBytes = limit
+	conf.Producer.Partitioner = sarama.NewManualPartitioner
+	conf.Producer.Flush.Frequency = flushFreq
+	conf.Net.MaxOpenRequests = 1
+	p, err := sarama.NewAsyncProducer(sim.Addrs(), conf)
+	if err != nil {
+		rec.Verdict, rec.Why = "inconclusive", "producer not created: "+err.Error()
+		return rec
+	}
+	type sub struct {
+		id, kv  int
+		life    int // how many payloads the object carried before this one
+		outcome int // 0 none, 1 success, 2 error
+		err     error
+	}
+	var subs []*sub
+	objs := make([]*sarama.ProducerMessage, nobj)
+	lives := make([]int, nobj)
+	for i := range objs {
+		objs[i] = &sarama.ProducerMessage{}
+	}
+	sizeFor := func(round int) int {
+		switch rng.Intn(6) {
+		case 0:
+			return limit + 1 + rng.Intn(limit) // oversize
+		case 1:
+			return limit - overhead - rng.Intn(3) // just fits
+		case 2, 3:
+			return limit*6/10 + rng.Intn(limit/10) // two of these do not fit into one batch
+		default:
+			return 8 + rng.Intn(12)
+		}
+	}
+	// the application's reader: outcomes are recorded on the submission the object carried then
+	var got int64
+	done := make(chan struct{})
+	go func() {
+		defer close(done)
+		succ, errs := p.Successes(), p.Errors()
+		for succ != nil || errs != nil {
+			select {
+			case m, ok := <-succ:
+				if !ok {
+					succ = nil
+					continue
+				}
+				m.Metadata.(*sub).outcome = 1
+				atomic.AddInt64(&got, 1)
+			case e, ok := <-errs:
+				if !ok {
+					errs = nil
+					continue
+				}
+				sb := e.Msg.Metadata.(*sub)
+				sb.outcome, sb.err = 2, e.Err
+				atomic.AddInt64(&got, 1)
+			}
+		}
+	}()
+	complete := true
+	for round := 0; round < rounds && complete; round++ {
+		for i, m := range objs {
+			kv := sizeFor(round)
+			if round == 0 && rng.Intn(3) != 0 {
+				kv = 8 + rng.Intn(12) // most first payloads are small
+			}
+			sb := &sub{id: len(subs), kv: kv, life: lives[i]}
+			lives[i]++
+			subs = append(subs, sb)
+			idp := []byte(fmt.Sprintf("%d:", sb.id))
+			if kv < len(idp) {
+				kv = len(idp)
+				sb.kv = kv
+			}
+			m.Topic, m.Partition, m.Key = "t", 0, nil
+			m.Value = sarama.ByteEncoder(append(idp, randBytes(rng, kv-len(idp))...))
+			m.Metadata = sb
+			p.Input() <- m
+		}
+		// every object of the round comes back before the next round refills it
+		t0 := time.Now()
+		for atomic.LoadInt64(&got) < int64(len(subs)) {
+			if time.Since(t0) > 20*time.Second {
+				complete = false
+				break
+			}
+			time.Sleep(200 * time.Microsecond)
+		}
+	}
+	closed := make(chan struct{})
+	go func() { p.AsyncClose(); <-done; close(closed) }()
+	select {
+	case <-closed:
+	case <-time.After(20 * time.Second):
+		complete = false
+	}
+	add := func(kind, attr, msg string) {
+		for _, v := range rec.Viols {
+			if v.Kind == kind && v.Attr == attr {
+				return
+			}
+		}
+		rec.Viols = append(rec.Viols, proto.Viol{Kind: kind, Attr: attr, Msg: msg})
+	}
+	vtag := versionClass(version) + ",reuse"
+	if !complete {
+		rec.Verdict, rec.Why = "inconclusive", "not every submission had its outcome after 20 s"
+		return rec // the reader may still be running
+	}
+	nearFull := false
+	for _, pr := range sim.Produced() {
+		kv, n := 0, 0
+		var ids []int
+		for _, b := range pr.Batches {
+			for _, r := range b.Recs {
+				kv += len(r.Key) + len(r.Value)
+				n++
+				if id, ok := msgIDFromRecord(r); ok && id < len(subs) {
+					ids = append(ids, id)
+					if subs[id].kv > limit {
+						add("oversize-sent", vtag, fmt.Sprintf("submission %d with key+value=%d bytes > MaxMessageBytes=%d was sent (the object carried %d payload(s) before)", id, subs[id].kv, limit, subs[id].life))
+					}
+				}
+			}
+		}
+		if n > 1 && kv > limit {
+			add("batch-bytes", vtag, fmt.Sprintf("partition batch of %d messages (submissions %v) carries %d key+value bytes > MaxMessageBytes=%d", n, ids, kv, limit))
+		}
+		if n > 1 && kv*10 >= limit*6 {
+			nearFull = true
+		}
+	}
+	reusedBig, reusedSmallAfterBig := 0, 0
+	for _, sb := range subs {
+		if sb.outcome == 0 {
+			continue
+		}
+		tooLarge := sb.err == sarama.ErrMessageSizeTooLarge
+		switch {
+		case sb.kv > limit:
+			if sb.life > 0 {
+				reusedBig++
+			}
+			if !tooLarge {
+				add("oversize-not-rejected", vtag, fmt.Sprintf("submission %d with key+value=%d > MaxMessageBytes=%d ended with outcome=%d err=%v instead of ErrMessageSizeTooLarge (the object carried %d payload(s) before)", sb.id, sb.kv, limit, sb.outcome, sb.err, sb.life))
+			}
+		case sb.kv+overhead <= limit:
+			if sb.life > 0 {
+				reusedSmallAfterBig++
+			}
+			if tooLarge {
+				add("spurious-reject", vtag, fmt.Sprintf("submission %d with byte size %d <= MaxMessageBytes=%d was rejected as too large (the object carried %d payload(s) before)", sb.id, sb.kv+overhead, limit, sb.life))
+			}
+		}
+	}
+	rec.Obs["submissions"], rec.Obs["reused_oversize"], rec.Obs["reused_fitting"] = int64(len(subs)), int64(reusedBig), int64(reusedSmallAfterBig)
+	rec.Obs["produce_batches"] = int64(len(sim.Produced()))
+	rec.NonTrivial = reusedBig > 0 || (nearFull && reusedSmallAfterBig > 0)
+	rec.Path = fmt.Sprintf("reusesize|%s|limit=%d|freq=%v|rounds=%d|big=%v", versionClass(version), limit, flushFreq, rounds, reusedBig > 0)
+	rec.Sample = map[string]interface{}{"limit": limit, "objects": nobj, "rounds": rounds, "submissions": len(subs), "reused_oversize": reusedBig}
+	if len(rec.Viols) > 0 {
+		rec.Verdict = "violated"
+	}
+	return rec
 }
